@@ -89,7 +89,9 @@ def run(eng, R):
     cm = MB.find_prop("cor_mat").fget
     src = eng.csrc(cm)
     ok = common.like_any(src, ["_fx = " + FX, "self._par_cor_mat = self._fill_in_zeroes_for_fixed(CovMat(%s).cor_mat)" % (SUB % "self.cov_mat")],
-                         ["self._par_cor_mat = self._fill_in_zeroes_for_fixed(CovMat(self._remove_zeroes_for_fixed(self.cov_mat)).cor_mat)"])
+                         ["_cm = self.cov_mat", "_fx = " + FX, "self._par_cor_mat = self._fill_in_zeroes_for_fixed(CovMat(%s).cor_mat)" % (SUB % "_cm")],
+                         ["self._par_cor_mat = self._fill_in_zeroes_for_fixed(CovMat(self._remove_zeroes_for_fixed(self.cov_mat)).cor_mat)"],
+                         ["_cm = self.cov_mat", "self._par_cor_mat = self._fill_in_zeroes_for_fixed(CovMat(self._remove_zeroes_for_fixed(_cm)).cor_mat)"])
     R.ob("H-cor", "MinimizerBase.cor_mat", ok, eng.where(cm), "the parameter correlation matrix must be the normalisation of the covariance on the free sub-block")
     check(eng, R, "H-cor", "MinimizerScipyOptimize", "minimize", "assign", "sqrt(diag(self.cov_mat))", target="self._par_err", what="symmetric parameter errors must be sqrt(diag(covariance))")
 
